@@ -21,7 +21,7 @@ func init() {
 }
 
 func runC14(r *report.Run) {
-	r.SetRule("race-detector build, child process per run: 16 query workers (cache on, every stamped query kind) x a reloader walking through generations (full reloads to new directories/files, partial reloads after a real ApplyDiff on the primary / file replacement, failing reloads: missing path, unreadable, missing validation key) x a ReportBackendStats ticker x a WatchDBAndReload watcher with a ReloadChan consumer x shutdown while queries are parked after reader acquisition (verif hook) and resumed afterwards; on CDB, RocksDB v1 and v2; repeated. Oracle: zero race-detector reports (deduplicated by entry-point pair), no panic/fatal error, every worker completes its fixed operation count before a generous watchdog. non-trivial = run in which queries and reloads really overlapped (measured: queries completed while a reload was in progress); distinct by (backend, repeat)")
+	r.SetRule("race-detector build, child process per run: 16 query workers (cache on, every stamped query kind) x a reloader walking through generations (every other run with a 1 ms reload timeout so that reloads time out while still running; full reloads to new directories/files, partial reloads after a real ApplyDiff on the primary / file replacement, failing reloads: missing path, unreadable, missing validation key) x a ReportBackendStats ticker x a WatchDBAndReload watcher with a ReloadChan consumer x shutdown while queries are parked after reader acquisition (verif hook) and resumed afterwards; on CDB, RocksDB v1 and v2; repeated. Oracle: zero race-detector reports (deduplicated by entry-point pair), no panic/fatal error, every worker completes its fixed operation count before a generous watchdog. non-trivial = run in which queries and reloads really overlapped (measured: queries completed while a reload was in progress); distinct by (backend, repeat)")
 	r.Assume("GORACE=halt_on_error=0 with log files; reports are counted from the logs, never from exit codes; a watchdog firing without a crash is inconclusive")
 	repeats := r.Pick(2, 5)
 	gens := r.Pick(25, 120)
@@ -42,7 +42,12 @@ func runC14(r *report.Run) {
 				defer wg.Done()
 				sem <- struct{}{}
 				defer func() { <-sem }()
-				res, err := runChild(true, "c14", []string{b.Name, fmt.Sprint(r.Seed*100 + int64(rep)), fmt.Sprint(gens)}, 25*time.Minute)
+				// odd repeats use a 1 ms reload timeout: many reloads then time out while their goroutine still runs
+				tmo := "0"
+				if rep%2 == 1 {
+					tmo = "1ms"
+				}
+				res, err := runChild(true, "c14", []string{b.Name, fmt.Sprint(r.Seed*100 + int64(rep)), fmt.Sprint(gens), tmo}, 25*time.Minute)
 				mu.Lock()
 				outs = append(outs, out{b, rep, res, err})
 				mu.Unlock()
@@ -71,7 +76,7 @@ func runC14(r *report.Run) {
 			r.Violation("", fmt.Sprintf("%s run %d: process died (exit %d) at step %q:\n%s", o.b.Name, o.rep, res.ExitCode, last, firstLines(res.Stderr, 14)), map[string]interface{}{"backend": o.b.Name, "journal_last": last})
 			continue
 		}
-		for _, k := range []string{"queries", "reloads", "queries_during_reload", "stats_reports", "parked_at_shutdown", "watcher_reloads"} {
+		for _, k := range []string{"reload_timeouts", "queries", "reloads", "queries_during_reload", "stats_reports", "parked_at_shutdown", "watcher_reloads"} {
 			if n, ok := res.Summary[k].(float64); ok {
 				r.Count(k, int64(n))
 			}
@@ -105,7 +110,11 @@ func c14Worker(args []string) int {
 		}
 	}
 	rng := rand.New(rand.NewSource(seed))
-	l, err := newLab(b, harness.ServerOpts{Cache: true}, 5000)
+	opt := harness.ServerOpts{Cache: true}
+	if len(args) > 3 && args[3] != "0" {
+		opt.ReloadTimeout, _ = time.ParseDuration(args[3])
+	}
+	l, err := newLab(b, opt, 5000)
 	if err != nil {
 		fmt.Println(err)
 		return 2
@@ -226,11 +235,13 @@ func c14Worker(args []string) int {
 	}
 	pwg.Wait()
 	dnsserver.SetVerifHook(nil)
+	timeouts := l.srv.Stats.Snapshot()["DNS_db.ErrReloadTimeout"]
 	l.srv = nil
+	time.Sleep(300 * time.Millisecond) // let timed-out reload goroutines finish before the scratch directory goes away
 	l.close()
 	fp, _ := firstPanic.Load().(string)
 	summary(map[string]interface{}{"queries": atomic.LoadInt64(&queries), "reloads": nreload, "queries_during_reload": atomic.LoadInt64(&during),
-		"stats_reports": atomic.LoadInt64(&statsReports), "parked_at_shutdown": parked, "watcher_reloads": atomic.LoadInt64(&watcherReloads),
+		"stats_reports": atomic.LoadInt64(&statsReports), "reload_timeouts": timeouts, "parked_at_shutdown": parked, "watcher_reloads": atomic.LoadInt64(&watcherReloads),
 		"panics": atomic.LoadInt64(&panics), "first_panic": fp})
 	return 0
 }
